@@ -299,6 +299,27 @@ class Oracle:
             w.drain()
             if len(w.handler_log) != n:
                 w.violate('e:broadcast-handled-after-termination', feats, w.handler_log[n:])
+            # ... nor does the same terminated process when it is recreated from a checkpoint with the communicator
+            from plumpy import persistence
+            try:
+                proc.remove_process_listener(w.listener)  # (listeners are saved with the process; the harness's cannot be)
+                loaded = persistence.Bundle(proc).unbundle(persistence.LoadSaveContext(loop=w.loop, communicator=w.comm))
+            except Exception as exc:  # noqa: BLE001
+                w.violate('e:recreating-terminated-process-raised', dict(feats, exc=type(exc).__name__), repr(exc))
+                loaded = None
+            if loaded is not None:
+                w.drain()
+                n = len(w.handler_log)
+                try:
+                    reply = w.comm.rpc_send('p0', process_comms.MessageBuilder.play())
+                    w.drain()
+                    w.violate('e:rpc-routable-after-termination', dict(feats, recreated=True), repr(final_of(reply)))
+                except kiwipy.UnroutableError:
+                    pass
+                process_comms.RemoteProcessThreadController(w.comm).pause_all('late')
+                w.drain()
+                if len(w.handler_log) != n:
+                    w.violate('e:broadcast-handled-after-termination', dict(feats, recreated=True), w.handler_log[n:])
         w.result.nontrivial = any(not r['quiescent'] for r in w.sent)
         w.result.outcome = (str(proc.state), tuple(w.announcements), tuple((r['op'], str(final_of(r['reply']))) for r in w.sent))
         w.result.sample = {'program': programs.describe(w.program), 'wrapped': w.wrapped,
